@@ -566,6 +566,20 @@ def _count_nodes(tree):
 # ------------------------------------------------------------------ driving the implementation
 def _one_run(case, choose):
     """one request under one completion order; returns (events, has_data, tracer_obs, schedule)"""
+    if case["kind"] == "deep":
+        # ./check raises the recursion limit for its own needs; the deeply nested document is meant to
+        # exhaust CPython's default budget inside parse()
+        import sys
+        old = sys.getrecursionlimit()
+        sys.setrecursionlimit(1000)
+        try:
+            return _one_run_inner(case, choose)
+        finally:
+            sys.setrecursionlimit(old)
+    return _one_run_inner(case, choose)
+
+
+def _one_run_inner(case, choose):
     config = case["config"]
     sc = _schema(config, case["deferred"] if case["kind"] == "exec" else [])
     inst, tracer = _instrumentation(case)
@@ -690,7 +704,9 @@ _OUT = {"val": "OVal", "null": "ONull", "err": "OErr", "argerr": "OArgErr",
         # a ResolverError raised while completing the returned value (resolve_type): the resolver
         # returned, no sub-field is resolved -- the same field word as a null
         "cerr": "ONull"}
-_CLASS = {"syntax": "OCSyntax", "validation": "OCValidation", "unknown_op": "OCUnknownOp",
+# "deep": a document nested beyond the interpreter's recursion budget; the property expects a syntax-error
+# outcome (stages Q+ P+ P- Q-)
+_CLASS = {"deep": "OCSyntax", "syntax": "OCSyntax", "validation": "OCValidation", "unknown_op": "OCUnknownOp",
           "var_error": "OCVarError", "dir_error": "OCDirective"}
 
 
@@ -929,6 +945,10 @@ def corpus():
             out.append(_base(config, sel=[[None, "i", None, [[None, "a", None, []]]], [None, "a", None, []]],
                              world={"i": "cerr"}, n=1, k=2, stacking="tracer",
                              deferred=["Query.i"] if config in DEFERRED_CFG else []))
+        # seeded C16-i / open finding deep-nesting-recursion-leaves-query-open: a document nested beyond the
+        # recursion budget (C01's open finding): whatever happens, the stage hooks must nest
+        out.append(_base(config, kind="deep", doc=DEEP_DOC, k=1, stacking="plain"))
+        out.append(_base(config, kind="deep", doc=DEEP_DOC, k=2, stacking="multi", n=1))
         # seeded C16-h: the stack as given -- equal-but-distinct recorder objects, the same object listed
         # several times, MultiInstrumentation nested three deep -- every entry is notified, in order / reverse
         for st, kk in (("eq", 2), ("eq", 3), ("eq_sep", 3), ("same", 2), ("same", 3), ("same_mixed", 3), ("deep", 3)):
@@ -1162,7 +1182,27 @@ def canonical(case):
     return json.dumps(c, sort_keys=True)
 
 
+DEEP_DOC = "{" + "a{" * 1500 + "a" + "}" * 1501
+KF_DEEP = "deep-nesting-recursion-leaves-query-open"
+
+
+def _is_deep_recursion_finding(case, obs):
+    """exactly C01's open finding `deep-nesting-recursion` seen from C16: parse() of a deeply nested
+    document raises RecursionError, which escapes the entry point from the parsing stage: every stage that
+    was opened is closed again except the query stage (Q+.. P+.. P-.. and nothing else). Anything else
+    -- an end hook out of order, another stage left open, another exception -- is not this finding."""
+    if case["kind"] != "deep":
+        return False
+    k = case["k"]
+    expected = ([["Q+", i] for i in range(k)] + [["P+", i] for i in range(k)]
+                + [["P-", i] for i in reversed(range(k))])
+    runs = obs.get("runs", [])
+    return bool(runs) and all(r.get("crashed") == "RecursionError" and r["events"] == expected for r in runs)
+
+
 def classify(case, obs):
+    if _is_deep_recursion_finding(case, obs):
+        return "query-stage-closed-when-parsing-fails (deep nesting, %s)" % case["config"], KF_DEEP
     crashed = [r["crashed"] for r in obs.get("runs", []) if r.get("crashed")]
     if crashed:
         return "request-completes (%s, %s): %s" % (case["kind"], case["config"], crashed[0]), None
